@@ -10,6 +10,8 @@ use blake3::hazmat::HasherExt;
 use std::io::{Read, Seek, Write};
 use std::sync::atomic::AtomicUsize;
 use std::sync::Arc;
+#[cfg(not(feature = "full"))]
+use crate::lean::LeanHasher;
 
 pub const MAX_POS: u64 = u64::MAX; // stream has 2^64-1 bytes: positions 0 ..= 2^64-1
 
@@ -459,6 +461,10 @@ fn probes_absorb(sh: &Shared, hs: &HSlot, len: usize) {
 }
 
 pub fn do_op(sh: &Arc<Shared>, local: &mut TaskLocal, op: &Op) -> OpResult {
+    if !crate::lean::FULL && crate::lean::needs_full(op) {
+        sh.probe("lean_flavour_operation_skipped");
+        return Err(OpErr::Skip);
+    }
     match op {
         Op::NewHasher { slot, mode, via } => {
             let m = mmode(sh, mode)?;
